@@ -389,6 +389,9 @@ func genPlan(seed uint64, idx int) *Plan {
 		}
 	}
 
+	if p.Mode == "clean" && idx%5 == 0 {
+		p.Pubs[len(p.Pubs)-1].CancelAt = []int{-1, 1, 2, 3, 4, 6, 9}[(idx/5)%7]
+	}
 	switch p.Mode {
 	case "faulty":
 		nf := []int{1, 1, 1, 2, 2, 3}[r.IntN(6)]
